@@ -1,21 +1,23 @@
-(* Schemas of structs, readonly structs, messages and enums - field types of any shape (front/TyInv.v) - as sequences of items of
+(* Schemas of structs, readonly structs, messages, enums and unions - field types of any shape (front/TyInv.v) - as sequences of items of
    the framework of GenInv.v: C11, C16 and C17 for every such schema and every layout. *)
 From Coq Require Import List NArith ZArith Bool Arith Lia.
 Require Import Bebop.front.Tok Bebop.front.Parse Bebop.front.Fmt Bebop.front.TokInv Bebop.front.LexInv Bebop.front.ParseInv Bebop.front.FmtInv Bebop.front.MsgInv.
-Require Import Bebop.front.GenInv Bebop.front.Items Bebop.front.TyInv Bebop.front.TyMsg Bebop.front.TyItems.
+Require Import Bebop.front.GenInv Bebop.front.Items Bebop.front.TyInv Bebop.front.TyMsg Bebop.front.TyItems Bebop.front.TyUnion Bebop.front.TyUnionItem.
 Import ListNotations.
 
 Inductive sdefn :=
 | SStruct (nm : ident) (fl : list tfdef) (blank : nat)
 | SReadonly (nm : ident) (fl : list tfdef) (blank : nat)
 | SMessage (nm : ident) (fl : list tmfdef) (blank : nat)
-| SEnum (nm : ident) (ml : list edef) (blank : nat).
+| SEnum (nm : ident) (ml : list edef) (blank : nat)
+| SUnion (nm : ident) (bl : list lub) (blank : nat).
 
 Definition sdefn_ok (d : sdefn) : Prop :=
   match d with
   | SStruct nm fl _ | SReadonly nm fl _ => ident_ok nm /\ Forall tfdef_ok fl
   | SMessage nm fl _ => ident_ok nm /\ Forall tmfdef_ok fl /\ tmfs_ok [] (map btm fl)
   | SEnum nm ml _ => ident_ok nm /\ Forall (fun m => ident_ok (fst m) /\ idx_ok (snd m)) ml /\ ems_ok (map bem ml)
+  | SUnion nm bl _ => ident_ok nm /\ Forall lub_ok bl /\ ubs_ok [] (map bub bl) /\ bl <> []
   end.
 Definition xel_of (d : sdefn) : xel :=
   match d with
@@ -23,14 +25,16 @@ Definition xel_of (d : sdefn) : xel :=
   | SReadonly nm fl k => (rt_item nm fl, rt_x nm fl, k)
   | SMessage nm fl k => (mt_item nm fl, mt_x nm fl, k)
   | SEnum nm ml k => (e_item nm ml, e_x nm ml, k)
+  | SUnion nm bl k => (u_item nm bl, u_x nm bl, k)
   end.
 Lemma xel_of_ok d : sdefn_ok d -> xel_ok (xel_of d).
 Proof.
-  destruct d as [nm fl k|nm fl k|nm fl k|nm ml k]; cbn [sdefn_ok xel_of xel_ok].
+  destruct d as [nm fl k|nm fl k|nm fl k|nm ml k|nm bl k]; cbn [sdefn_ok xel_of xel_ok].
   - intros [A B]. now apply st_item_ok.
   - intros [A B]. now apply rt_item_ok.
   - intros (A & B & C). now apply mt_item_ok.
   - intros (A & B & C). now apply e_item_ok.
+  - intros (A & B & C & D). now apply u_item_ok.
 Qed.
 
 (* the lexemes of the text, the File it states, its canonical text *)
@@ -57,24 +61,25 @@ Definition structs_of (d : sdefn) : list struct_ :=
   end.
 Definition messages_of (d : sdefn) : list message := match d with SMessage nm fl _ => [tmessage_of (ibytes nm) (map btm fl)] | _ => [] end.
 Definition enums_of (d : sdefn) : list enum_ := match d with SEnum nm ml _ => [enum_of (ibytes nm) (map bem ml)] | _ => [] end.
+Definition unions_of (d : sdefn) : list union_ := match d with SUnion nm bl _ => [union_of (ibytes nm) (map bub bl)] | _ => [] end.
 
 Lemma schema_file_spec dl :
   structs (schema_file dl) = flat_map structs_of dl /\
   messages (schema_file dl) = flat_map messages_of dl /\
   enums (schema_file dl) = flat_map enums_of dl /\
-  unions (schema_file dl) = [] /\ consts (schema_file dl) = [] /\ imports (schema_file dl) = [] /\ gopackage (schema_file dl) = [].
+  unions (schema_file dl) = flat_map unions_of dl /\ consts (schema_file dl) = [] /\ imports (schema_file dl) = [] /\ gopackage (schema_file dl) = [].
 Proof.
   unfold schema_file.
   assert (G : forall dl f,
     structs (gfile (map xe_el (map xel_of dl)) f) = structs f ++ flat_map structs_of dl /\
     messages (gfile (map xe_el (map xel_of dl)) f) = messages f ++ flat_map messages_of dl /\
     enums (gfile (map xe_el (map xel_of dl)) f) = enums f ++ flat_map enums_of dl /\
-    unions (gfile (map xe_el (map xel_of dl)) f) = unions f /\ consts (gfile (map xe_el (map xel_of dl)) f) = consts f /\
+    unions (gfile (map xe_el (map xel_of dl)) f) = unions f ++ flat_map unions_of dl /\ consts (gfile (map xe_el (map xel_of dl)) f) = consts f /\
     imports (gfile (map xe_el (map xel_of dl)) f) = imports f /\ gopackage (gfile (map xe_el (map xel_of dl)) f) = gopackage f).
   { clear. induction dl as [|d dl IH]; intros f; [cbn; rewrite !app_nil_r; repeat split|].
     cbn [map gfile fold_left flat_map]. destruct (IH (it_upd (fst (xe_el (xel_of d))) f)) as (A & B & C & D & E & F & G0).
     unfold gfile in *. rewrite A, B, C, D, E, F, G0.
-    destruct d as [nm fl k|nm fl k|nm fl k|nm ml k]; cbn [xel_of xe_el fst snd st_item rt_item mt_item e_item it_upd add_struct add_message add_enum structs messages enums unions consts imports gopackage app structs_of messages_of enums_of];
+    destruct d as [nm fl k|nm fl k|nm fl k|nm ml k|nm bl k]; cbn [xel_of xe_el fst snd st_item rt_item mt_item e_item u_item it_upd add_struct add_message add_enum add_union structs messages enums unions consts imports gopackage app structs_of messages_of enums_of unions_of];
       rewrite <- ?app_assoc, ?app_nil_r; repeat split; reflexivity. }
   destruct (G dl file0) as (A & B & C & D & E & F & G0). cbn [file0 structs messages enums unions consts imports gopackage app] in *. repeat split; assumption.
 Qed.
